@@ -12,6 +12,7 @@ separate objects, and trees whose sparse containers / Bins share one *unfilled
 template* object: every fill must succeed.
 """
 import copy
+import json
 
 from .. import observe, spec as specmod
 from ..kernel import call, exc_site, make_box
@@ -50,7 +51,7 @@ class C16(Scenario):
                    "positions whose constructor copies its argument (Bin flows and values, Fraction value, sparse value "
                    "templates) do not share an object afterwards and are control cases"]
     expected_faults = ["shared_node"]
-    expected_probes = ["shared_prefilled", "shared_used_in_other_tree", "shared_numpy_attempt", "control_shared_template", "parent_prefilled", "explicit_bins_position", "assigned_slot"]
+    expected_probes = ["shared_prefilled", "shared_used_in_other_tree", "shared_numpy_attempt", "control_shared_template", "parent_prefilled", "explicit_bins_position", "assigned_slot", "reloaded_root"]
 
     # ------------------------------------------------------------------ generation
     def generate(self, rng, tier, profile):
@@ -63,7 +64,7 @@ class C16(Scenario):
         a = ref("S") if shared else S
         b = ref("S") if shared else copy.deepcopy(S)
         pat = t.pick(["siblings", "siblings", "cousins-select", "cousins-coll", "uncle", "own-child", "deep", "explicit-bins", "explicit-bins",
-                      "prefilled-parents", "prefilled-parents", "assigned-slot", "assigned-slot"])
+                      "prefilled-parents", "prefilled-parents", "assigned-slot", "assigned-slot", "reloaded-root", "reloaded-root"])
         kind = t.pick(["Label", "UntypedLabel", "Index", "Branch"])
         other = {"p": "Count"}
         defs = {"S": S}
@@ -127,6 +128,14 @@ class C16(Scenario):
                 assign = [[0, a1]] if shared else []
             if not shared:
                 assign = []
+        elif pat == "reloaded-root":
+            # the root is a directory that came back from a checkpoint (JSON reload / toImmutable); live aggregators are
+            # attached to it afterwards, before its first fill
+            sub = lambda: coll(t.pick(["UntypedLabel", "Branch"]), [other, {"p": "Count"}])  # noqa: E731
+            tree = coll(t.pick(["UntypedLabel", "Branch"]), [other, sub(), sub()])
+            defs = {"S": S, "S2": copy.deepcopy(S)}
+            reloaded = {"how": t.pick(["fromJson", "jsonstr", "immutable", "file"]), "where": t.pick(["siblings", "cousins", "uncle"]),
+                        "rootfills": [t.randrange(4) for _ in range(t.randint(0, 3))]}
         elif pat == "prefilled-parents":
             # two containers that each hold S once are valid on their own and get filled on their own first
             def parent(x):
@@ -181,7 +190,7 @@ class C16(Scenario):
                 steps.append({"op": "fillnumpy", "rows": [s.randrange(len(recs)) for _ in range(s.randint(1, 4))], "box": s.pick(["dict", "frame", "rec"]),
                               "weights": s.pick(["one", 0.5])})
         return {"defs": defs, "tree": tree, "shared": shared, "pattern": pat, "records": [specmod.enc_record(r) for r in recs], "steps": steps,
-                "assign": assign if pat == "assigned-slot" else []}
+                "assign": assign if pat == "assigned-slot" else [], "reloaded": reloaded if pat == "reloaded-root" else None}
 
     # ------------------------------------------------------------------ execution
     def run(self, case, w, R):
@@ -190,7 +199,7 @@ class C16(Scenario):
         shared = case["shared"]
         objs = {}
         ctr = [0]
-        for name in ("S", "P", "P1", "P2"):
+        for name in ("S", "S2", "P", "P1", "P2"):
             if name in case["defs"]:
                 o = call(specmod.build, case["defs"][name], ctr, objs)
                 if not o.ok:
@@ -242,6 +251,12 @@ class C16(Scenario):
                 for idx, attr in case.get("assign", []):
                     setattr(tree.values[idx], attr, S)
                     w.bump("probe_assigned_slot")
+                rl = case.get("reloaded")
+                if rl:
+                    tree = self._reload_and_attach(w, tree, rl, S, S if shared else objs.get("S2"), si)
+                    if tree is None:
+                        return
+                    w.bump("probe_reloaded_root")
                 w.put(2, tree)
             elif op in ("fill", "fillnumpy"):
                 if tree is None:
@@ -292,6 +307,45 @@ class C16(Scenario):
         R["shape"] = "%s|%s|%s|%d|%s" % (case["pattern"], specmod.shape_key(case["defs"]["S"]), case["tree"]["p"], hist, ",".join(kinds))
         R["nontrivial"] = (nS >= 2 or hist >= 1) and attempts >= 2
         R["units"] = attempts
+
+    def _reload_and_attach(self, w, tree, rl, a, b, si):
+        import histogrammar as hg
+        from histogrammar.defs import Factory
+
+        for i in rl["rootfills"]:
+            if i < len(w.records):
+                call(tree.fill, w.records[i], 1.0)
+        how = rl["how"]
+        if how == "immutable":
+            o = call(tree.toImmutable)
+        else:
+            o = w.ship(tree, {"fromJson": "json", "jsonstr": "jsonstr", "file": "file"}[how], "c16-root.json")
+        if not o.ok:
+            raise self.violation(exc_site(o.exc)[0], "reload", "exception:%s" % type(o.exc).__name__,
+                                 "reloading a directory of counters raised %s" % o.describe(), si)
+        root = o.value
+
+        def attach(node, key, obj):
+            if "pairs" in node.__dict__:  # Label / UntypedLabel keep a dict; Index / Branch compute `pairs` from `values`
+                node.pairs[key] = obj
+            else:
+                node.values = type(node.values)(list(node.values) + [obj])
+
+        def kid(node, i):
+            return node.values[i]
+
+        if b is None:
+            return None
+        if rl["where"] == "siblings":
+            attach(root, "h1", a)
+            attach(root, "h2", b)
+        elif rl["where"] == "cousins":
+            attach(kid(root, 1), "h", a)
+            attach(kid(root, 2), "h", b)
+        else:
+            attach(root, "h", a)
+            attach(kid(root, 2), "h", b)
+        return root
 
     def shrink(self, case):
         yield from shrink_steps(case)
